@@ -26,7 +26,8 @@
 (*                particles; lens = Seq([size, props]) the properties      *)
 (*                grouped by carray length / stride; idx = the values of   *)
 (*                orig_idx (<<>> when the scheme did not add it)           *)
-(*   c.eqs      : Seq([cls, dest, sources, d, s, syms, stage, gd, gs])     *)
+(*   c.eqs      : Seq([cls, dest, sources, d, s, syms, stage, gd, gs,      *)
+(*                     need, mod])                                         *)
 (*                one entry per equation, Group trees and                  *)
 (*                MultiStageEquations flattened in evaluation order;       *)
 (*                d / s = explicit d_* / s_* argument names of its         *)
@@ -134,15 +135,43 @@ PerArrayBad(c) ==
            /\ b.idx # [i \in 1 .. b.n |-> i - 1]
            /\ b.idx # [i \in 1 .. b.n |-> 0]}}
 P_PerArray(c) == c.setup.ok => PerArrayBad(c) = {}
+
+\* strides: a method that addresses name[K*idx + j] needs K values per
+\* particle (eq.need / method.need, read off the method's source); the
+\* array must have declared the property with a stride >= K
+DeclStride(c, n, p) ==
+    LET S == {x \in UNION {Range(a.strides) :
+                           a \in {b \in Range(c.arrays) : b.name = n}} :
+              x.p = p}
+    IN IF S = {} THEN 1 ELSE (CHOOSE x \in S : TRUE).k
+SWit(c, cls, role, n, nd) ==
+    IF n \in ArrNames(c) /\ nd.p \in Props(c, n)
+       /\ DeclStride(c, n, nd.p) < nd.k
+    THEN {[cls |-> cls, role |-> role, array |-> n, prop |-> nd.p,
+           need |-> nd.k, have |-> DeclStride(c, n, nd.p)]}
+    ELSE {}
+EqStrideWitnesses(c, eq) ==
+    UNION {IF nd.r = "d" THEN SWit(c, eq.cls, "dest", eq.dest, nd)
+           ELSE UNION {SWit(c, eq.cls, "source", n, nd) :
+                       n \in Range(eq.sources)} : nd \in Range(eq.need)}
+StepStrideWitnesses(c, st) ==
+    UNION {UNION {SWit(c, st.cls, "stepper", st.array, nd) :
+                  nd \in Range(m.need)} : m \in Range(st.methods)}
+StrideWitnesses(c) ==
+    UNION {EqStrideWitnesses(c, eq) : eq \in Range(c.eqs)}
+    \cup UNION {StepStrideWitnesses(c, st) : st \in Range(c.steppers)}
+P_Strides(c) == c.setup.ok => StrideWitnesses(c) = {}
 \* "unavailable": the run needs a package that is not installed here
 P_RunFinite(c) == c.run.done => c.run.kind \in {"ok", "unavailable"}
 
-Clauses == {"SetUp", "Complete", "PerArray", "Generated", "RunFinite"}
+Clauses == {"SetUp", "Complete", "PerArray", "Strides", "Generated",
+            "RunFinite"}
 Failed(c) ==
     {n \in Clauses :
         ~ CASE n = "SetUp"     -> P_SetUp(c)
             [] n = "Complete"  -> P_Complete(c)
             [] n = "PerArray"  -> P_PerArray(c)
+            [] n = "Strides"   -> P_Strides(c)
             [] n = "Generated" -> P_Generated(c)
             [] n = "RunFinite" -> P_RunFinite(c)}
 
@@ -264,6 +293,7 @@ Verdict(c, K) ==
     IN [id |-> c.id, failed |-> f,
         witnesses |-> IF c.setup.ok THEN Witnesses(c) ELSE {},
         badarrays |-> IF c.setup.ok THEN PerArrayBad(c) ELSE {},
+        strides |-> IF c.setup.ok THEN StrideWitnesses(c) ELSE {},
         explained |-> ex,
         known |-> IF ex THEN KnownHit(c, K) ELSE {},
         neqs |-> Len(c.eqs),
